@@ -184,7 +184,8 @@ def classify_flag(expr, body):
     expr = expr.strip()
     if expr in ("true", "false"):
         return f".const {expr}"
-    m = re.fullmatch(r"\w+\s*\.\s*contains\s*\(\s*\w+\s*::\s*(\w+)\s*\)", expr)
+    # `contains` and `intersects` coincide for a single flag
+    m = re.fullmatch(r"\w+\s*\.\s*(?:contains|intersects)\s*\(\s*\w+\s*::\s*(\w+)\s*\)", expr)
     if m:
         if m.group(1) not in FEATURE_BITS:
             raise ExtractError(f"queue flag taken from unexpected feature {m.group(1)}")
